@@ -3,7 +3,9 @@
 (* Trace validation for C09.  The harness (harness/submission) executes    *)
 (* the test plan of MC_Submission.tla against the real Log.Handler() of a  *)
 (* log on in-memory backends and records, in order,                        *)
-(*   Reload    the root set it installed with SetRootsFromPEM              *)
+(*   Reload    the root set it installed with SetRootsFromPEM (each set is *)
+(*             installed, then installed again with the same bytes and as  *)
+(*             a different bundle of the same certificates)                *)
 (*   GetRoots  the answer of get-roots (certificates mapped to the names   *)
 (*             of their hierarchies)                                       *)
 (*   Case      an abstract submission of the table with the real answer,   *)
@@ -54,7 +56,7 @@ ReloadStep ==
     /\ last' = [kind |-> "reload"]
     /\ adopt' = FALSE
     /\ viol' = AddV(F("HARNESS.ReloadRefused", e.ok)
-                    \cup F("HARNESS.Schedule", e.gen \in Gens /\ e.gen = gen + 1 /\ AsSet(e.set) = Schedule[e.gen]))
+                    \cup F("HARNESS.Schedule", e.gen \in Gens /\ e.gen \in {gen, gen + 1} /\ AsSet(e.set) = Schedule[e.gen]))
     /\ UNCHANGED seen
     /\ l' = l + 1
 
